@@ -136,9 +136,14 @@ void ezc3d::DataNS::Data::frame(const ezc3d::DataNS::Frame &frame, size_t idx)
         _frames.push_back(copy);
     }
     else {
-        if (idx >= _frames.size())
+        if (idx >= _frames.size()){
+            // The frame may be one of the stored frames: keep its content alive while resizing moves them
+            ezc3d::DataNS::Frame keep(frame);
             _frames.resize(idx+1);
-        _frames[idx].add(frame);
+            _frames[idx].add(keep);
+        }
+        else
+            _frames[idx].add(frame);
     }
 }
 
